@@ -11,5 +11,6 @@ pub mod cli;
 pub mod server;
 pub mod vpltree;
 pub mod mvt;
+pub mod onecpu;
 
 pub use engine::{guard, Check, Fail, Obs, Tier};
